@@ -297,7 +297,7 @@ instances += [
 
 unit = {
     "property": ["C14"],
-    "desc": "basis files: SPxBasisBase<R>::writeBasis and readBasis (spxbasis.hpp) over ghost-recording stream / name-set / MPSInput stubs",
+    "desc": "basis files: SPxBasisBase<R>::writeBasis and readBasis (spxbasis.hpp) and the unloaded-LP branch of SoPlexBase<R>::writeBasisFile (soplex.hpp) over ghost-recording stream / string / name-set / MPSInput stubs",
     "rmode": "R = double (IEEE, bit-precise; only comparisons with +-infinity and equality of bounds are used)",
     "defines": {"CAP": "6"}, "defines_thorough": {"CAP": "12"}, "defines_small": {"CAP": "3"},
     "flags": ["--bounds-check", "--pointer-check", "--signed-overflow-check"],
